@@ -170,7 +170,7 @@ Definition write_field (env : enum_env) (t : fty) : outcome fieldw :=
              | Some p, Some KId62 => Ok (Some (LStrFkId62, p))
              | Some p, Some KUuid => Ok (Some (LStrFkUuid, p))
              | Some p, Some (KCustom _) => Ok (Some (LStrFkUnique, p))
-             | Some p, Some KInformal => Err "unknown key format"   (* no arm for informal in the list-rules switch *)
+             | Some p, Some KInformal => Ok (Some (LStrFkUnique, p))   (* since dc2b724; "unknown key format" before *)
              end)
         (fun lst =>
            Ok (FW KdString
@@ -199,10 +199,10 @@ Definition write_field (env : enum_env) (t : fty) : outcome fieldw :=
             (Some XTimestamp) (with_arm LTimestamp l) None)
   | TAny od ts l => Ok (FW KdAny None (Some (XAny od ts)) (with_arm LAny l) None)
   (* object / oneof rules: an empty (buf.validate.field), nothing of the rules in it *)
-  | TObject fl r =>
-      Ok (FW KdMsgObject (match r with Some _ => Some (C false None) | None => None end) (Some (XObject fl)) None None)
-  | TOneof rules l =>
-      Ok (FW KdMsgOneof (if rules then Some (C false None) else None) (Some XOneof) (with_arm LOneof l) None)
+  | TObject n fl r =>
+      Ok (FW (KdMsgObject n) (match r with Some _ => Some (C false None) | None => None end) (Some (XObject fl)) None None)
+  | TOneof n rules l =>
+      Ok (FW (KdMsgOneof n) (if rules then Some (C false None) else None) (Some XOneof) (with_arm LOneof l) None)
   end.
 
 (* ---- buildProperty --------------------------------------------------------- *)
@@ -241,7 +241,7 @@ Definition set_required (v : option constraint) : option constraint :=
 
 Definition is_msg_kind (k : pkind) : bool :=
   match k with
-  | KdMsgObject | KdMsgOneof | KdTimestamp | KdDate | KdDecimal | KdAny => true
+  | KdMsgObject _ | KdMsgOneof _ | KdTimestamp | KdDate | KdDecimal | KdAny => true
   | _ => false
   end.
 
